@@ -76,7 +76,20 @@ impl Write for ScriptedWriter {
         s.attempts.push(Attempt { bytes: Some(buf.to_vec()), out: out.clone() });
         match out {
             AOut::Ok => Ok(buf.len()),
-            AOut::Failed(id) => Err(io::Error::new(io::ErrorKind::ConnectionRefused, format!("w-{}", id))),
+            AOut::Failed(id) => {
+                // code under test may special-case an error kind: rotate through several (Interrupted has its own outcome)
+                const KINDS: [io::ErrorKind; 8] = [
+                    io::ErrorKind::ConnectionRefused,
+                    io::ErrorKind::WouldBlock,
+                    io::ErrorKind::WriteZero,
+                    io::ErrorKind::TimedOut,
+                    io::ErrorKind::BrokenPipe,
+                    io::ErrorKind::Other,
+                    io::ErrorKind::PermissionDenied,
+                    io::ErrorKind::UnexpectedEof,
+                ];
+                Err(io::Error::new(KINDS[(id as usize) % KINDS.len()], format!("w-{}", id)))
+            }
             AOut::Interrupted(id) => Err(io::Error::new(io::ErrorKind::Interrupted, format!("w-{}", id))),
         }
     }
